@@ -546,6 +546,7 @@ def g_history(rng):
     universe = list(keys)
     queries = [base]          # as lists of steps
     ops, nret = [], 0
+    evaluated = []            # text of the query of every returned state
     for _ in range(rng.randint(4, 10)):
         r = rng.random()
         if nret == 0 or r < 0.5:
@@ -565,10 +566,15 @@ def g_history(rng):
             if q not in queries:
                 queries.append(q)
             ops.append(("E", "/".join(q)))
+            evaluated.append("/".join(q))
             nret += 1
         else:
             i = rng.randrange(nret)
             r2 = rng.random()
+            if aliases_volatile_input(evaluated[i]) and r2 < 0.55:
+                # known finding volatile-input-not-cloned: data and a variable of such a state may be ONE object (also nested inside a
+                # pair); in-place mutation of its objects is outside the one-cell-per-value abstraction of the model
+                r2 = 0.55 + 0.45 * rng.random()
             if r2 < 0.28:
                 ops.append(("MD", i, g_list(rng)))
             elif r2 < 0.38:
